@@ -2677,6 +2677,7 @@ class nx_match (object):
 
   def __iadd__ (self, other):
     self.append(other)
+    return self
 
   @staticmethod
   def _fixname (name):
